@@ -60,7 +60,7 @@ OSIM_NOSAN Task * currentTask() { return tl_task; }
 OSIM_NOSAN void setCurrentTask(Task * t) { tl_task = t; }
 OSIM_NOSAN uint64_t ticksNow() { return tl_task ? tl_task->ticks : 0; }
 OSIM_NOSAN void setTickBudget(uint64_t b) { g_budget = b; }
-OSIM_NOSAN void setTickWatch(bool on) { g_watch = on; }
+OSIM_NOSAN bool setTickWatch(bool on) { bool prev = g_watch; g_watch = on; return prev; }
 
 static OSIM_NOSAN void schedPoint(Task * t, bool finished);
 
